@@ -147,13 +147,21 @@ def analyse_parser(ctx: Ctx, ci: ClassInfo, fi: FuncInfo) -> Dict[str, object]:
             info["lookup"] = "value"
             info["normalise"] = _norm_of(U(rv.args[0]), param)
             info["returns"] = "member"
+        elif (isinstance(rv, ast.Call) and isinstance(rv.func, ast.Attribute) and rv.func.attr == "get" and strip_v(U(rv.func.value)).replace(" ", "") in (f"{clsname}.__members__", f"{ci.name}.__members__")
+              and 1 <= len(rv.args) <= 2 and not rv.keywords):
+            # dict.get never raises: a string that names no member silently becomes the default
+            info["lookup"] = "name"
+            info["normalise"] = _norm_of(U(rv.args[0]), param)
+            info["returns"] = "member"
+            dflt = strip_v(U(rv.args[1])) if len(rv.args) == 2 else "None"
+            info["nonmember_override"] = ["none" if dflt == "None" else f"fallback:{dflt}"]
         else:
             raise AnalysisError(f"{fi.qualname}: return `{U(rv)}` is not a recognised lookup idiom")
         ctx.require(info["normalise"] is not None, f"{fi.qualname}: lookup key is not a recognised normalisation of `{param}`")
         info["needs_eq"] = False
         info["ret_text"] = strip_v(U(rv))
         # a dict / constructor lookup raises KeyError / ValueError by itself for non-members
-        info["nonmember"] = ["raise"]
+        info["nonmember"] = info.pop("nonmember_override", ["raise"])
         after = []
     nm: List[str] = list(info.get("nonmember", []))
     for p in after:
@@ -259,10 +267,46 @@ def rule_set_task(ctx: Ctx) -> None:
                             yield from inner_loops(e.body or [])
 
         lps = list(inner_loops(paths))
+        if not lps:
+            # the same conversion written as a comprehension
+            prm = fi.params()[0].arg
+            verdict = None
+            for c in [n for n in ast.walk(fi.node) if isinstance(n, (ast.ListComp, ast.GeneratorExp, ast.DictComp))]:
+                its = [strip_v(U(g.iter)).replace(" ", "") for g in c.generators]
+                enum_its = ("EvaluationTask", "list(EvaluationTask)", "EvaluationTask.__members__.values()")
+                if len(its) == 1 and its[0] in enum_its:
+                    v = U(c.generators[0].target)
+                    tests = [strip_v(U(t)).replace(" ", "") for t in c.generators[0].ifs]
+                    if any(t in (f"{v}.valuein{prm}", f"{v}in{prm}") for t in tests):
+                        verdict = ("order", f"[... for {v} in EvaluationTask if {v}.value in {prm}]")
+                elif len(its) == 2 and its[0] in (prm, f"{prm}.items()", f"{prm}.keys()") and its[1] in enum_its and not c.generators[0].ifs and len(c.generators[1].ifs) == 1:
+                    v = U(c.generators[1].target)
+                    sv = U(c.generators[0].target.elts[0] if isinstance(c.generators[0].target, ast.Tuple) else c.generators[0].target)
+                    t = strip_v(U(c.generators[1].ifs[0])).replace(" ", "")
+                    okc = t in (f"{sv}=={v}.value", f"{v}.value=={sv}") or (t in (f"{sv}=={v}", f"{v}=={sv}") and eq_handles_str(ci, ctx))
+                    elt = c.key if isinstance(c, ast.DictComp) else c.elt
+                    verdict = ("ok" if okc and U(elt) == v else "bad", t)
+            if verdict is not None and verdict[0] == "order":
+                ctx.violate("C20-settask", fn, "follows-input-order",
+                            f"{fn}: the result is built by walking EvaluationTask and keeping the members whose value occurs in `{prm}` ({verdict[1]}): the tasks come out in the order of the enum "
+                            f"definition and once each, not position by position as the strings were given", fi=fi, expected=f"for s in {prm}: for task in EvaluationTask: if s == task.value: ...", found=verdict[1])
+                continue
+            if verdict is not None:
+                for m, v in members:
+                    ctx.check(verdict[0] == "ok", "C20-settask", fn, m, f"{fn}: the comprehension selects with `{verdict[1]}` / yields something other than the member", fi=fi)
+                continue
         ctx.require(bool(lps), f"{fn}: loop over EvaluationTask not found")
         lp = lps[0]
         var = U(lp.node.target)
         hits = [bp for bp in lp.body if any(v and k.startswith("same:") for k, v in bp.conds)]
+        if not hits:
+            prm = fi.params()[0].arg
+            memb = [k for bp in lp.body for k, v in bp.conds if v and k.startswith("in:") and strip_v(k[3:]).replace(" ", "") in (f"{var}.valuein{prm}", f"{var}in{prm}")]
+            if memb:
+                ctx.violate("C20-settask", fn, "follows-input-order",
+                            f"{fn}: the result is built by walking EvaluationTask and keeping the members for which `{strip_v(memb[0][3:])}`: the tasks come out in the order of the enum "
+                            f"definition and once each, not position by position as the strings were given", fi=fi, expected=f"for s in {prm}: for task in EvaluationTask: if s == task.value: ...", found=strip_v(memb[0][3:]))
+                continue
         ctx.require(bool(hits), f"{fn}: no equality test in the loop over EvaluationTask")
         bp = hits[0]
         k = [k for k, v in bp.conds if v and k.startswith("same:")][0]
@@ -284,6 +328,8 @@ def rule_set_task(ctx: Ctx) -> None:
             ctx.info("C20: set_task returns None for an unknown task name; unreachable through a configuration (gated by _check_tasks / _support_tasks, see C15)")
 
 
+from rules.common import enum_paths as _enum_paths
+
 SITES = [
     # (function, parameter, parser call text prefix, stored attribute or None)
     ("common.shape.Shape.__init__", "shape_type", "ShapeType.from_value", "self.type"),
@@ -299,9 +345,7 @@ SITES = [
 def rule_sites(ctx: Ctx) -> None:
     for fq, param, parser, attr in SITES:
         fi = ctx.func(fq)
-        en = Enumerator(ctx.index, ctx.resolver, Options())
-        paths = en.function(fi)
-        ctx.paths_enumerated += len(paths)
+        paths = _enum_paths(ctx, fi)  # a conversion helper introduced by an edit is inlined, so the dispatch is seen where it used to be
         call_txt = f"{parser}({param})"
         seen_str = seen_mem = False
         short = fq.split(".", 2)[-1]
@@ -328,6 +372,19 @@ def rule_sites(ctx: Ctx) -> None:
                     okc = okc and strip_v(U(stores[-1].value)) == param
                 ctx.check(okc, "C20-site", short, f"{param}:enum",
                           f"{short}: an enum `{param}` is not used unchanged (stored: {[U(s.value) for s in stores]})", fi=fi)
+        if not seen_str and not seen_mem and attr:
+            # the conversion of this parameter is decided by the type of ANOTHER value
+            by_other = {}
+            for p in paths:
+                other = sorted(strip_v(k) for k in p.facts if k.startswith("isinstance:") and not strip_v(k).startswith(f"isinstance:{param},"))
+                st = [e for e in p.effects if e.kind == "store" and strip_v(e.recv) == attr]
+                if other and st:
+                    by_other.setdefault(strip_v(U(st[-1].value)).replace(" ", ""), other)
+            if call_txt in by_other and param in by_other and len(by_other) == 2:
+                ctx.violate("C20-site", short, f"{param}:dispatch-on-other",
+                            f"{short}: whether `{param}` goes through {parser} is decided by {by_other[call_txt][:2]}, not by the type of `{param}` itself: a str `{param}` next to an enum in the other "
+                            f"position is stored raw (and an enum next to a str is handed to {parser})", fi=fi, expected=f"{call_txt} if isinstance({param}, str) else {param}", found=str(by_other[call_txt][:2]))
+                continue
         if not seen_str and not seen_mem:
             # no dispatch at all: positively recognised only when the raw parameter is what gets stored / used
             raw = [e for p in paths for e in p.effects if e.kind == "store" and attr and strip_v(e.recv) == attr]
